@@ -110,6 +110,7 @@ class C05:
         assert self.model.ask("reset") == "ok"
 
     def send_segments(self, segs):
+        self.last_segs = segs
         c = self.srv.client(timeout=3.0)
         for i, s in enumerate(segs):
             try:
@@ -399,11 +400,28 @@ def main(tier, seed):
     r = Rng(seed)
     try:
         scale = 8 if tier == "thorough" else 1
-        c.pipelines(r.fork("valid"), 140 * scale)
-        c.malformed(r.fork("bad"), 40 * scale)
-        c.pubsub_pipelines(r.fork("pubsub"))
-        c.special_replies(r.fork("special"))
-        c.matrix(r.fork("matrix"), tier)
+
+        def phase(name, fn):
+            # a server that is gone in the middle of a phase (killed by an input) is an outcome, not an internal error:
+            # the phase is abandoned, the death recorded with the last segments sent, and the next phase gets a new server
+            try:
+                fn()
+            except (OSError, Closed, TimeoutError) as e:
+                if c.srv.alive():
+                    time.sleep(0.3)
+                if c.srv.alive():
+                    raise
+                c.server_deaths = getattr(c, "server_deaths", 0) + 1
+                c.oracle_failures.append({"why": "the server process died during phase '%s' (%s); its requests lost their replies" % (name, type(e).__name__),
+                                          "last_segments": [hx(x) for x in getattr(c, "last_segs", [])][:50], "server_log_tail": c.srv.log_tail(400)})
+                c.srv.stop()
+                c.srv = Server("c05")
+                c.ctl = c.srv.client()
+        phase("pipelines", lambda: c.pipelines(r.fork("valid"), 140 * scale))
+        phase("malformed", lambda: c.malformed(r.fork("bad"), 40 * scale))
+        phase("pubsub", lambda: c.pubsub_pipelines(r.fork("pubsub")))
+        phase("special", lambda: c.special_replies(r.fork("special")))
+        phase("matrix", lambda: c.matrix(r.fork("matrix"), tier))
     finally:
         c.close()
     rep.traces_validated = rep.evaluations
